@@ -355,7 +355,7 @@ def py_arg(v, conv):
     if v[0] == 'n':
         x = float_of(v[1])
         if conv in 'diuoxX':
-            if abs(x) >= 2.0 ** 53:
+            if abs(x) >= 2.0 ** 53 and conv in 'diu':
                 raise ValueError('above 2^53: Jsonnet prints shortest digits (boundary v)')
             return int(math.trunc(x))
         if conv in 'eEfF':
